@@ -543,7 +543,9 @@ class DiskChopper:
             )
 
         frequency = abs(self.frequency)
-        pulse_frequency = pulse_frequency.to(unit=frequency.unit)
+        # float64: an integer-valued pulse frequency must not be rounded to a
+        # whole number of the chopper's frequency unit before forming the ratio.
+        pulse_frequency = pulse_frequency.to(unit=frequency.unit, dtype='float64')
         quot = frequency / pulse_frequency
         if not _is_int_or_inverse_int(quot, rtol=sc.scalar(1e-8)):
             raise ValueError(
